@@ -23,7 +23,8 @@ type propDef struct {
 	chunk     int
 	rule      string
 	assume    []string
-	// post is an optional property-specific phase after the main batch (R-order, R-pristine …)
+	// pre runs before the batch (R-pristine expectations …); post after it (R-order …)
+	pre  func(c *checkCtx)
 	post func(c *checkCtx) *found
 }
 
@@ -60,6 +61,10 @@ type replayFile struct {
 	Note     string    `json:"note,omitempty"`
 }
 
+// curSeed is the base seed of the running check (workers derive per-invocation material such
+// as the C19 corpus from it, also when replaying a tape).
+var curSeed uint64
+
 func seedFromEnv() uint64 {
 	if s := os.Getenv("VERIF_SEED"); s != "" {
 		if v, err := strconv.ParseUint(s, 10, 64); err == nil {
@@ -81,7 +86,7 @@ func replayOnce(bin, prop string, tape []uint32) (*found, []string, error) {
 	defer os.Remove(f.Name())
 	json.NewEncoder(f).Encode(map[string]interface{}{"tape": tape})
 	f.Close()
-	cr := runChunk(bin, prop, 0, 0, 1, "asc", "-tape", f.Name())
+	cr := runChunk(bin, prop, curSeed, 0, 1, "asc", "-tape", f.Name())
 	if cr.err != nil {
 		return nil, nil, cr.err
 	}
@@ -216,10 +221,14 @@ func cmdCheck(id string, tier string, replayPath string) int {
 	if p.race {
 		bin = env.race
 	}
-	if replayPath != "" {
-		return cmdReplay(p, bin, replayPath)
-	}
 	c := &checkCtx{p: p, env: env, bin: bin, seed: seed, tier: tier, extra: map[string]interface{}{}, t0: t0}
+	if replayPath != "" {
+		return cmdReplay(c, replayPath)
+	}
+	curSeed = seed
+	if p.pre != nil {
+		p.pre(c)
+	}
 	total, capS := p.quickRuns, p.quickS
 	if tier == "thorough" {
 		total, capS = p.thorRuns, p.thorS
@@ -312,7 +321,8 @@ func replayWindow(bin, prop string, seed uint64, from, to int, class string) boo
 	return cr.err == nil && cr.viol != nil && cr.viol.I == to && cr.viol.Viol.Class == class
 }
 
-func cmdReplay(p *propDef, bin, path string) int {
+func cmdReplay(c *checkCtx, path string) int {
+	p, bin := c.p, c.bin
 	b, err := os.ReadFile(path)
 	if err != nil {
 		exit2("%v", err)
@@ -320,6 +330,11 @@ func cmdReplay(p *propDef, bin, path string) int {
 	var rf replayFile
 	if err := json.Unmarshal(b, &rf); err != nil {
 		exit2("%v", err)
+	}
+	curSeed, c.seed, c.tier = rf.Seed, rf.Seed, rf.Tier
+	tierName = rf.Tier
+	if p.pre != nil {
+		p.pre(c)
 	}
 	var f *found
 	if len(rf.Tape) > 0 {
